@@ -82,7 +82,12 @@ impl ArrivalCurvePrefix {
                 .map(|(i, _)| i)
                 .next();
             let i = step.unwrap_or(self.steps.len());
-            self.steps[i - 1].1
+            if i > 0 {
+                self.steps[i - 1].1
+            } else {
+                // no step at or below delta (e.g., nothing ever arrives)
+                0
+            }
         }
     }
 }
